@@ -45,7 +45,12 @@ func keyAtoms(pool []string, full bool) []string {
 	return out
 }
 
-var opaqueAtoms = []string{"value = 'x'", "true", "false", "!(key = 'a')", "value ^= 'y'", "key = value"}
+var opaqueAtoms = []string{"value = 'x'", "true", "false", "!(key = 'a')", "value ^= 'y'", "key = value",
+	// IN lists with an element that is not a literal (depends on the pair, or is a constant call):
+	// the planner may only use point reads when every element is a literal
+	"value = ''", "value != 'x'",
+	"key in ('a', value)", "key in (value, 'b')", "key in ('a', upper(value))", "key in ('a', lower('B'))",
+	"key in ('ab', 'a' + 'b')", "key between 'a' and value", "key = upper('a')", "key > lower(value)"}
 
 type scanObs struct {
 	region string // Gallina term
@@ -102,6 +107,12 @@ func c02Universe(pool []string) [][2]string {
 		v := "y" + k
 		if i%3 == 0 {
 			v = "x"
+		}
+		if i%5 == 2 || k == "ac" || k == "c" {
+			v = k // a pair whose value equals its key (key in (.., value), key = value)
+		}
+		if i%7 == 3 || k == "ab" || k == "b" {
+			v = "" // a stored pair with an empty value is still a pair (also under point reads)
 		}
 		out[i] = [2]string{k, v}
 	}
@@ -210,6 +221,12 @@ func c02Case(e *emitter, pred string, univ [][2]string, st *refStore, modes bool
 		if m.batch && gerr != nil && pn == "" {
 			// batch evaluation does not short-circuit AND/OR, so it may fail where the
 			// row-at-a-time filter succeeds (C03 states the property in the other direction)
+			// -- only when some sub-expression fails on some pair of the universe
+			if !c01SubexprFails(sel.Where.Expr, univ) {
+				rp.Err = fmt.Sprint(gerr)
+				e.fail(idx, "batch scan failed although every sub-expression evaluates on every pair: "+rp.Err, "C02/batch-error", rp)
+				return
+			}
 			e.count("batch_mode_error_skipped")
 			continue
 		}
